@@ -294,8 +294,15 @@ func zzC03NewSrv(t testing.TB, listeners bool) (z *zzC03Srv) {
 		TLSAllowUnencryptedDoH: false,
 	}
 
+	// Never leave the listen addresses nil: the server would then bind the
+	// default port 53, and on a host whose resolv.conf points at 127.0.0.1
+	// stray system lookups would flow through the server under observation
+	// (seen: TLC's JVM resolving its statistics host).
+	lo4, any6 := net.IP{127, 0, 0, 1}, net.IPv6unspecified
+	conf.UDPListenAddrs = []*net.UDPAddr{{IP: lo4}}
+	conf.TCPListenAddrs = []*net.TCPAddr{{IP: lo4}}
+
 	if listeners {
-		lo4, any6 := net.IP{127, 0, 0, 1}, net.IPv6unspecified
 		conf.UDPListenAddrs = []*net.UDPAddr{{IP: lo4}, {IP: any6}}
 		conf.TCPListenAddrs = []*net.TCPAddr{{IP: lo4}, {IP: any6}}
 		conf.TLSConf.Cert = zzC03Cert(t)
@@ -1275,16 +1282,6 @@ func zzC03Sweep(z *zzC03Srv, u, v *zzC03Vec, rng *rand.Rand, full bool, rec *zzC
 
 	nid := len(u.IDs)
 
-	// The pre-request hook itself must never resolve, filter, log or count:
-	// whatever it answers, the observers of this server stay where they are.
-	obs0 := z.obs.snap()
-	defer func() {
-		if obs1 := z.obs.snap(); obs1 != obs0 {
-			rec.bad("observers", v, cl, &zzC03AReq{Form: "plain", Proto: "-"}, &zzC03Req{Level: "handler"},
-				[]string{"observers unmoved by HandleBefore"}, fmt.Sprintf("%+v", zzC03Delta(obs0, obs1)), nil)
-		}
-	}()
-
 	// run executes one request at handler level and compares; on a mismatch
 	// it is run a second time, alone, and for a non-plain form the plain form
 	// is run as well.
@@ -1300,14 +1297,27 @@ func zzC03Sweep(z *zzC03Srv, u, v *zzC03Vec, rng *rand.Rand, full bool, rec *zzC
 		}
 		want := zzC03Want(ex, hv, ar.Proto)
 		rec.counts["handler"]++
+
+		// The pre-request hook itself must never resolve, filter, log or
+		// count, whatever it answers: the observers of this server stay put.
+		obs0 := z.obs.snap()
 		got := z.handle(r)
-		if zzC03In(want, got) {
+		moved := z.obs.snap() != obs0
+		if zzC03In(want, got) && !moved {
 			return
 		}
 
+		obs0 = z.obs.snap()
 		got2 := z.handle(r)
-		if zzC03In(want, got2) {
+		obs1 := z.obs.snap()
+		if zzC03In(want, got2) && obs1 == obs0 {
 			rec.counts["flaky"]++
+
+			return
+		}
+
+		if zzC03In(want, got2) {
+			rec.bad("observers", v, cl, ar, r, want, got2, map[string]any{"obs_delta": zzC03Delta(obs0, obs1), "ex": ex, "hv": hv})
 
 			return
 		}
@@ -2086,7 +2096,10 @@ func TestZZVerifC03One(t *testing.T) {
 			d := zzC03Delta(before, z.obs.snap())
 			row["d"] = map[string]int64{"up": d.Up, "filt": d.Filt, "qlog": d.Qlog, "stats": d.Stats}
 		default:
+			before := z.obs.snap()
 			row["out"] = z.handle(r)
+			d := zzC03Delta(before, z.obs.snap())
+			row["d"] = map[string]int64{"up": d.Up, "filt": d.Filt, "qlog": d.Qlog, "stats": d.Stats}
 		}
 
 		w.put(row)
